@@ -6,6 +6,11 @@ ALL = [f"C{i:02d}" for i in range(1, 21)]
 
 # id -> (category, technique, text, note, design_ref)
 CHECKS = {
+    "C12": ("fault_enumeration",
+            "fault enumeration: every single-breach mutation at every applicable site of every solution of a corpus, each mutant confirmed invalid by an independent oracle",
+            "Corpus: solver solutions (2 configurations) of a slice of the families the checker documents, kept only if the independent oracle finds them valid. Acceptance: the repository checker must accept every original. Rejection: 14 mutation classes (misreported load, load above capacity, unknown/duplicated/dropped job, job split over tours, assigned and unassigned, arrival +2 s, stop distance +2, tour/overall statistic +2, limit below actual, broken relation, misplaced break) are applied at EVERY applicable site; a mutant is judged only if the oracle confirms it invalid for the intended rule class; the checker must answer Err.",
+            "Mutation magnitude 2 units (above the checker's +-1 tolerance); problem-side mutations keep the solution fixed.",
+            "DESIGN.md section 5 C12"),
     "C07": ("fault_enumeration",
             "crash-point enumeration: the quota fires at every poll index, a virtual-clock deadline passes at every clock read, every generation limit with a counting hyper-heuristic",
             "For every problem of a slice and every configuration the number N of quota polls of the uninterrupted run is measured and the solve is repeated with a CountingQuota firing at the k-th poll for EVERY k in 0..=N; a time limit is driven by the virtual clock (hook H3) so that the deadline passes at clock read j for every j <= 40/400; max-generations {0,1,2,3,5} are run with a counting hyper-heuristic wrapper. Every solve must return Ok and the solution must pass the full oracle (C01-C03 rules); rounds <= limit.",
